@@ -68,6 +68,32 @@ inline std::vector<long long> local_entries(ParMatrix* A, bool exact = true) {
     return out;
 }
 
+// the per-rank data of a scalar distributed matrix exactly as stored: on-process entries (local row, local column,
+// value), off-process entries (local row, halo position, value), local_row_map, on_proc_column_map, off_proc_column_map
+// (each list preceded by its length; maps the object leaves empty are filled in the way the library reads them)
+inline std::vector<long long> local_blocks(ParMatrix* A) {
+    std::vector<long long> out;
+    auto emit = [&](Matrix* M) {
+        std::vector<long long> e;
+        if (M) {
+            format_t f = M->format();
+            auto push = [&](int row, int col, int k) { e.push_back(row); e.push_back(col); e.push_back((long long)llround(M->get_val(k, 0))); };
+            if (f == COO) { for (int k = 0; k < M->nnz; k++) push(M->idx1[k], M->idx2[k], k); }
+            else if (f == CSR) { for (int i = 0; i < M->n_rows; i++) for (int k = M->idx1[i]; k < M->idx1[i + 1]; k++) push(i, M->idx2[k], k); }
+            else if (f == CSC) { for (int j = 0; j < M->n_cols; j++) for (int k = M->idx1[j]; k < M->idx1[j + 1]; k++) push(M->idx2[k], j, k); }
+        }
+        out.push_back((long long)e.size() / 3); out.insert(out.end(), e.begin(), e.end());
+    };
+    emit(A->on_proc); emit(A->off_proc);
+    out.push_back(A->local_num_rows);
+    for (int i = 0; i < A->local_num_rows; i++) out.push_back(i < (int)A->local_row_map.size() ? A->local_row_map[i] : A->partition->first_local_row + i);
+    out.push_back(A->on_proc_num_cols);
+    for (int j = 0; j < A->on_proc_num_cols; j++) out.push_back(j < (int)A->on_proc_column_map.size() ? A->on_proc_column_map[j] : A->partition->first_local_col + j);
+    out.push_back(A->off_proc_num_cols);
+    for (int k = 0; k < A->off_proc_num_cols; k++) out.push_back(k < (int)A->off_proc_column_map.size() ? A->off_proc_column_map[k] : -1);
+    return out;
+}
+
 inline std::vector<long long> gather_entries(ParMatrix* A, bool exact = true) {
     auto per = gather_ll(local_entries(A, exact));
     std::vector<long long> all;
